@@ -435,8 +435,13 @@ def gen_kernel(rng, n):
         m, nn = rng.randint(1, 5), rng.randint(1, 6)
         rk = rng.randint(0, min(m, nn))
         shape = rng.choice(SHAPES)
+        via = rng.choice(["kernel", "kernel", "orthogonal_complement"])
+        if via == "orthogonal_complement":
+            # its docstring requires linearly independent row vectors: k = rank ≤ n (utils.kernel itself takes any rank)
+            m = rng.randint(1, nn)
+            rk = m
         yield {"m": m, "n": nn, "rank": rk, "shape": shape, "A": [L.encM(L.rank_mat(rng, m, nn, rk)) for _ in range(cnt(shape))],
-               "via": rng.choice(["kernel", "kernel", "orthogonal_complement"])}
+               "via": via}
 
 
 def run_kernel(inp):
@@ -618,8 +623,9 @@ def judge_arcs(inp, obs, lr):
         if "err" in res:
             return {"expected": "model answer", "observed": res, "tags": dict(tags, driver_err=res["err"])}
         mv = Q.decf(res["ok"])
-        if not close(np.array(iv), mv, 1e-12):
-            return {"expected": mv.tolist(), "observed": iv, "tags": tags}
+        # an angle is an angle modulo 2π: first ≡ first, second ≡ second (this fixes the arc and its orientation)
+        if not all(math.isfinite(a) and abs(math.remainder(a - b, 2 * PI)) <= 1e-9 for a, b in zip(iv, mv)):
+            return {"expected": {"angles modulo 2π": mv.tolist()}, "observed": iv, "tags": tags}
     return None
 
 
@@ -777,6 +783,8 @@ def gen_kero(rng, n):
                 A = np.zeros((m, nn))
             As.append(A.tolist())
         via = rng.choice(["kernel", "kernel", "oc_form", "oc_none", "oc_real_none", "oc_real_form"])
+        if via != "kernel" and any(r != m for r in [rk]):
+            via = "kernel"          # orthogonal_complement documents linearly independent rows; only utils.kernel takes any rank
         inp = {"m": m, "n": nn, "rank": rk, "shape": shape, "A": As, "via": via}
         if via.startswith("oc_real"):
             # a genuine (positive definite, so that normalisation is always possible) form: complements are form-orthogonal
